@@ -8,7 +8,7 @@ EXPLANATION = (
     "literal (decoder and the four public gateway classes) is read-only: never the receiver of a mutating method, never subscript-assigned or "
     "augmented, never stored un-copied, transitively through the resolved callees it is passed to (super().__init__, NMEA2000Decoder(...), "
     "split_pgn_list). [NO-GLOBAL-WRITE] no function of the package (1359 generated + hand-written) declares global/nonlocal or mutates a module-level "
-    "name (lookup tables included). [INSTANCE-STATE] decoder/encoder attributes are created in __init__; later stores are only the inventoried ones. "
+    "name (lookup tables included). [INSTANCE-STATE] no decoder/encoder attribute is bound, after construction, to a module-level or class-level mutable object (originally: later stores are only the inventoried ones -- see the eighth-round note below). "
     "[STATE-DEPS] the guards of every return/store in _decode, _decode_fast_message and _call_decode_function read only configuration attributes (never mutated outside __init__), the source map and the reassembly buffers -- bookkeeping such as the logged-PGN set decides nothing. [FRESH-MSG] every leaf decoder constructs its message inside the call and returns that object (C01 GEN-DEC return obligations). [RA-RESET]/[RA-PRE]/[RA-DONE]/[RA-KEY] (C04's clauses that make a complete message with a fresh counter independent of what was received before). [RA-SAFE] in the "
     "reassembly step every index that can fail on a truncated frame precedes all writes to the record. UNDECIDED: 'identically after any history' as "
     "such (needs C04/C10/C11's mechanisms composed)."
